@@ -7,6 +7,7 @@
      cat:<j>,<bpr>;<j>,<bpr>...        drop:<i>   opq:<i>:<fn2>:<j>:<inplace>:<dtchg> (sequence operand)
      appbad:<i>[:b] (element with another trailing shape)   shrink:<i>   cat1:<j>,<j>... (axis=1)
      gett:<i>:<idx>:<lo>:<hi> (seq[idx, lo:hi])
+     extbad:<i>:<bpr>:<pre>:<good elems>:<extra> (extend(good + [bad element of 1 row] + [extra-1 more rows]))
    <elems> = '-' (empty list) or elements joined by '/', an element = rows joined by '.', 'e' = empty
    <idx>   = s,<a>,<b>,<c> ('n' = None) | l[,<k>...] | m[,<0|1>...]
    <fn>    = add,<k> | mul,<k> | neg | lt,<k> | eq,<k> | or,<k> | and,<k> | xor,<k> | shl,<k> | shr,<k>
@@ -53,6 +54,8 @@ let op_of_string s = match split ':' s with
     OConcat (List.map (fun p -> match split ',' p with [j; b] -> (nat j, z_of_string b) | _ -> failwith "bad cat")
                (if js = "" then [] else split ';' js))
   | ["drop"; i] -> ODrop (nat i)
+  | ["extbad"; i; bpr; pre; els; x] ->
+    OExtendBad (nat i, z_of_string bpr, bool_of_string pre, elems_of_string els, nat x)
   | ["appbad"; i] | ["appbad"; i; _] -> OAppendBad (nat i)
   | ["shrink"; i] -> OShrink (nat i)
   | ["cat1"; js] -> OConcat1 (List.map nat (if js = "" then [] else split ',' js))
